@@ -1,7 +1,73 @@
 import GoawkModel.Basic
-/-! Line-protocol handler for property C12: one request line (already split into words, without the leading `c12`) → one answer line. -/
-namespace GoawkModel.Drv.C12
+import GoawkModel.C12
+/-! Line-protocol handler for property C12.
 
-def handle (_args : List String) : String := "unimplemented"
+`run <flags> <existing> <args> <stdinRecs> <op>*` → one group of effects per executed operation, groups separated by `|`.
+* `<flags>`: four characters `0|1` = noExec noWrites noReads hook
+* `<existing>`, `<args>`: comma-separated hex names, `.` for the empty list (`-` is the empty name)
+* ops: `gt:<n>:<ok>` `app:<n>:<ok>` `pipe:<n>:<ok>` `gf:<n>` `gc:<n>:<ok>` `sys:<n>:<ok>` `gl` `main` `close:<n>` `ff:<n>`
+* effects: `stdout` `stderr` `stdin` `open:<n>:<rd|tr|ap>:<c|o>:<ok>` `exec:<n>:<ok>` `use:<n>:<kind>` `cl:<n>:<kind>` `soft` `err:<code>`
+-/
+namespace GoawkModel.Drv.C12
+open GoawkModel GoawkModel.C12
+
+def bit (c : Char) : Option Bool := if c = '1' then some true else if c = '0' then some false else none
+
+def parseFlags (s : String) : Option Flags :=
+  match s.toList with
+  | [a, b, c, d] => do
+    let a ← bit a; let b ← bit b; let c ← bit c; let d ← bit d
+    pure { noExec := a, noWrites := b, noReads := c, hook := d }
+  | _ => none
+
+def parseList (s : String) : Option (List Bytes) :=
+  if s = "." then some [] else (s.splitOn ",").mapM fromHex
+
+def parseBool (s : String) : Option Bool := if s = "1" then some true else if s = "0" then some false else none
+
+def parseOp (s : String) : Option IoOp :=
+  match s.splitOn ":" with
+  | ["gt", n, ok] => do pure (.printGt (← fromHex n) (← parseBool ok))
+  | ["app", n, ok] => do pure (.printApp (← fromHex n) (← parseBool ok))
+  | ["pipe", n, ok] => do pure (.printPipe (← fromHex n) (← parseBool ok))
+  | ["gf", n] => do pure (.getlineFile (← fromHex n))
+  | ["gc", n, ok] => do pure (.getlineCmd (← fromHex n) (← parseBool ok))
+  | ["sys", n, ok] => do pure (.system (← fromHex n) (← parseBool ok))
+  | ["gl"] => some .getline
+  | ["main"] => some .mainLoop
+  | ["close", n] => do pure (.close (← fromHex n))
+  | ["ff", n] => do pure (.fflush (← fromHex n))
+  | _ => none
+
+def showKind : Kind → String
+  | .inFile => "inFile" | .inCmd => "inCmd" | .outFile => "outFile" | .outCmd => "outCmd" | .outNull => "outNull"
+
+def showErr : Err → String
+  | .writeToReader => "writeToReader" | .readFromWriter => "readFromWriter" | .noFileWrites => "noFileWrites"
+  | .noExecPipeOut => "noExecPipeOut" | .noExecPipeIn => "noExecPipeIn" | .noExecSystem => "noExecSystem"
+  | .noFileReads => "noFileReads" | .redirect => "redirect" | .openFailed => "openFailed"
+
+def showB (b : Bool) : String := if b then "1" else "0"
+
+def showEffect : Effect → String
+  | .useStdout => "stdout" | .useStderr => "stderr" | .useStdin => "stdin"
+  | .open n m via ok =>
+    "open:" ++ toHex n ++ ":" ++ (match m with | .rd => "rd" | .wrTrunc => "tr" | .wrAppend => "ap") ++ ":" ++
+      (match via with | .configured => "c" | .osDirect => "o") ++ ":" ++ showB ok
+  | .exec n ok => "exec:" ++ toHex n ++ ":" ++ showB ok
+  | .useStream n k => "use:" ++ toHex n ++ ":" ++ showKind k
+  | .closeStream n k => "cl:" ++ toHex n ++ ":" ++ showKind k
+  | .soft => "soft"
+  | .error e => "err:" ++ showErr e
+
+def handle (args : List String) : String :=
+  match args with
+  | "run" :: flags :: existing :: operands :: recs :: ops =>
+    match parseFlags flags, parseList existing, parseList operands, recs.toNat?, ops.mapM parseOp with
+    | some f, some ex, some as, some r, some ops =>
+      let groups := trace f (St.init ex as r) ops
+      "ok " ++ String.intercalate " | " (groups.map fun g => if g.isEmpty then "none" else String.intercalate " " (g.map showEffect))
+    | _, _, _, _, _ => "bad-request"
+  | _ => "bad-request"
 
 end GoawkModel.Drv.C12
